@@ -262,4 +262,17 @@ theorem iso_roundtrip (t : Int) (h : t.natAbs ≤ 8640000000000000) :
 example : toISOString (newDate (.fin false 253402300800000 0)) = .ok ([43,48,49,48,48,48,48] ++ [45,48,49,45,48,49,84,48,48,58,48,48,58,48,48,46,48,48,48,90]) ∧
     parseOfISO (newDate (.fin false 253402300800000 0)) = some 253402300800000 := by decide +kernel
 
+-- ================================================================ deviation regions: kernel-checked witnesses
+-- (scripted arguments: which ToNumber conversions happen; `o` = object whose valueOf logs, `t` = throws)
+
+/-- Dev conv_skipped_on_invalid: d = new Date(NaN); d.setUTCHours(o) never calls valueOf (ES5: log [0]) -/
+example : (setUTCS .hour (newDate .nan) [.obj one]).2.2 = [] ∧ (Spec.setUTCS .hour none [.obj one]).2.2 = [0] := by decide +kernel
+/-- Dev conv_stops_at_nonfinite: Date.UTC(2000, NaN, o) never converts the third argument -/
+example : (newDateTimeS [.num (.fin false 2000 0), .num .nan, .obj one]).2 = [] ∧
+    (Spec.dateUTCS [.num (.fin false 2000 0), .num .nan, .obj one]).2 = [2] := by decide +kernel
+/-- … and d.setUTCHours(NaN, o) on a valid date likewise -/
+example : (setUTCS .hour (newDate zero) [.num .nan, .obj one]).2.2 = [] ∧ (Spec.setUTCS .hour (some 0) [.num .nan, .obj one]).2.2 = [1] := by decide +kernel
+/-- Dev fullyear_throw_resets: d = new Date(NaN); d.setUTCFullYear(t) throws and leaves the date at 0 (ES5: still invalid) -/
+example : getTime (setUTCS .year (newDate .nan) [.thrower]).1 = some 0 ∧ (Spec.setUTCS .year none [.thrower]).1 = none := by decide +kernel
+
 end OttoVerif.C12.Thm
